@@ -50,11 +50,11 @@ def pick_roots0(tree, rnd):
     return roots, rnd.random() < 0.5
 
 
-def one_history(c, rnd, hid, max_steps):
-    """returns (cases, outcomes, number of steps)"""
+def one_history(c, rnd, hid, max_steps, force_mode=None, force_kinds=()):
+    """returns (cases, outcomes, number of steps); force_mode / force_kinds fix the archive flavour and the first step kinds"""
     cases, outcomes = [], []
     with cli.Sandbox("c11") as sb:
-        mode = rnd.choice(["single", "single", "split", "split", "solid", "solidsplit"])
+        mode = force_mode or rnd.choice(["single", "single", "split", "split", "solid", "solidsplit"])
         tree = U.Tree(sb, rnd, big="split" in mode)
         tree.populate(rnd.randint(2, 6))
         # in a third of the histories the commands run INSIDE the archive's directory: the archive is named by a bare
@@ -68,7 +68,7 @@ def one_history(c, rnd, hid, max_steps):
             log.append("cd ar     # every command below runs in <sandbox>/ar")
         def from_cwd(roots):
             return [p if (not bare or os.path.isabs(p)) else "../" + (p[2:] if p.startswith("./") else p) for p in roots]
-        nsteps = min(max_steps, rnd.randint(3, 8))
+        nsteps = max(len(force_kinds), min(max_steps, rnd.randint(3, 8)))
         before = []
         ops_txt, results = [], []
         for si in range(nsteps):
@@ -76,7 +76,7 @@ def one_history(c, rnd, hid, max_steps):
                 tree.evolve()
             # ---- choose the operation
             kinds = ["C"] if si == 0 else ["A"] * 4 + ["U"] * 8 + ["D"] * 3 + ["C"] + (["N"] * 2 if len(arch.parts) == 1 else [])
-            t = rnd.choice(kinds)
+            t = force_kinds[si] if si < len(force_kinds) else rnd.choice(kinds)
             op = {"t": t}
             fifo = None
             rewriting = False
@@ -93,7 +93,7 @@ def one_history(c, rnd, hid, max_steps):
                 flags = (["-r"] if rec else []) + (["--keep-dir"] if op["kd"] else []) + (["--keep-timestamp"] if op["kt"] else [])
                 if t == "C":
                     arch.clear()
-                    if rnd.random() < 0.5 and si:
+                    if rnd.random() < 0.5 and si and not force_mode:
                         mode = rnd.choice(["single", "split", "solid", "solidsplit"])
                     args = ["create", os.path.relpath(sb.path("ar", "x.pna"), cwd), "--overwrite"] + flags
                     if "solid" in mode:
@@ -206,6 +206,15 @@ def run(tier, seed, replay=None):
     cases, outcomes = [], []
     steps, hid = 0, 0
     budget = STEPS.get(tier, 100)
+    # every run: in-place append to the LAST part of a multipart archive (append.rs walks the parts with seek_to_end /
+    # read_next_archive), twice, then an update of it; the same on a solid multipart archive (line coverage showed that
+    # the random histories of a quick run may never append to a part set)
+    for fm in ("split", "solidsplit"):
+        cs, os_, n = one_history(c, random.Random(rnd.getrandbits(48)), hid, 4, force_mode=fm, force_kinds=("C", "A", "A", "U"))
+        cases += cs
+        outcomes += os_
+        steps += n
+        hid += 1
     while steps < budget:
         cs, os_, n = one_history(c, random.Random(rnd.getrandbits(48)), hid, budget - steps if budget - steps >= 2 else 2)
         cases += cs
